@@ -674,6 +674,7 @@ func c08Run(c *c08Case, st *vstat.Stats) error {
 		}
 		h.log.rec("waitret", -1, 0, x)
 		waitDone.Store(true)
+		h.log.progress.Add(1) // last action: the controller looks again now that the flag is set
 	})
 	dk := 0
 	for !waitDone.Load() {
